@@ -35,7 +35,7 @@ fn canon(xot: &Xot, n: Node, drop_cp: bool, fold: &dyn Fn(&str) -> String, top: 
             Canon::El(ename(xot, e.name()), attrs, kids(xot))
         }
         Value::Text(t) => Canon::Text(fold(t.get())),
-        Value::Comment(c) => { if drop_cp && !top { return None; } Canon::Comment(c.get().to_string()) }
+        Value::Comment(c) => { if drop_cp && !top { return None; } Canon::Comment(fold(c.get())) }
         Value::ProcessingInstruction(p) => { if drop_cp && !top { return None; } Canon::Pi(ename(xot, p.target()), p.data().map(|d| fold(d))) }
         Value::Attribute(a) => Canon::Attr(ename(xot, a.name()), fold(a.value())),
         Value::Namespace(ns) => Canon::Ns(xot.prefix_str(ns.prefix()).to_string(), xot.namespace_str(ns.namespace()).to_string()),
@@ -70,7 +70,7 @@ fn mutate(r: &mut Rng, a: &ANode, pool: &Pool) -> (ANode, &'static str) {
         return (match a { ANode::Text(s) => ANode::Text(format!("{}x", s)), other => other.clone() }, "leaf");
     }
     let p = r.pick(&paths).clone();
-    let kind = r.below(12);
+    let kind = r.below(14);
     let e = at(&mut b, &p);
     if let ANode::Elem { name, ns, attrs, kids } = e {
         match kind {
@@ -85,7 +85,19 @@ fn mutate(r: &mut Rng, a: &ANode, pool: &Pool) -> (ANode, &'static str) {
             8 => { ns.clear(); return (b, "declaration-only"); }
             9 => { if !attrs.is_empty() { let n = *r.pick(&pool.attr_names); if !attrs_has(attrs_clone(&*attrs), n) { attrs[0].0 = n; return (b, "attr-name"); } } return (b, "same"); }
             10 => { kids.push(ANode::Pi(pool.pi_names[0], Some("d".into()))); return (b, "extra-pi"); }
-            _ => { if let Some(k) = kids.iter_mut().find(|k| matches!(k, ANode::Comment(_))) { *k = ANode::Comment("changed".into()); return (b, "comment-text"); } return (b, "same"); }
+            11 => { if let Some(k) = kids.iter_mut().find(|k| matches!(k, ANode::Comment(_))) { *k = ANode::Comment("changed".into()); return (b, "comment-text"); } return (b, "same"); }
+            // the same content in another case: equal under the case-insensitive comparison, different under the exact one
+            12 => {
+                for k in kids.iter_mut() {
+                    match k {
+                        ANode::Comment(s) | ANode::Text(s) if s.chars().any(|c| c.is_ascii_alphabetic()) => { *s = if s.chars().any(|c| c.is_ascii_lowercase()) { s.to_ascii_uppercase() } else { s.to_ascii_lowercase() }; return (b, "content-case-only"); }
+                        ANode::Pi(_, Some(s)) if s.chars().any(|c| c.is_ascii_alphabetic()) => { *s = s.to_ascii_uppercase(); return (b, "content-case-only"); }
+                        _ => {}
+                    }
+                }
+                kids.push(ANode::Comment("Case".into())); return (b, "extra-comment");
+            }
+            _ => { if let Some(k) = kids.iter_mut().rev().find(|k| matches!(k, ANode::Comment(_))) { if let ANode::Comment(s) = k { *s = if s.chars().any(|c| c.is_ascii_lowercase()) { s.to_ascii_uppercase() } else { format!("{}a", s).to_ascii_lowercase() }; } return (b, "comment-case-only"); } kids.push(ANode::Comment("c".into())); return (b, "extra-comment"); }
         }
     }
     (b, "same")
@@ -188,6 +200,7 @@ fn main() {
             let dex_ci = xot.deep_equal_xpath(x, y, ci);
             let ade_xp = xot.advanced_deep_equal(x, y, |n| xot.is_element(n) || xot.is_text(n), |a, b| a == b);
             let ade_nc = xot.advanced_deep_equal(x, y, |n| !xot.is_comment(n), ci);
+            let ade_all = xot.advanced_deep_equal(x, y, |_| true, ci);
             let se = xot.shallow_equal(x, y);
             let mut sei: Vec<&str> = vec![];
             for l in &ignore_lists {
@@ -199,7 +212,7 @@ fn main() {
             }
             let svx = xot.string_value(x);
             let svy = xot.string_value(y);
-            obs.push(format!("{}:de={};rev={};dec={};dex={};dexci={};adexp={};adenc={};se={};sei={};svx={};svy={}", pi, b01(de), b01(de_rev), b01(dec), b01(dex), b01(dex_ci), b01(ade_xp), b01(ade_nc), b01(se), sei.join(""), enc(&svx), enc(&svy)));
+            obs.push(format!("{}:de={};rev={};dec={};dex={};dexci={};adexp={};adenc={};adeall={};se={};sei={};svx={};svy={}", pi, b01(de), b01(de_rev), b01(dec), b01(dex), b01(dex_ci), b01(ade_xp), b01(ade_nc), b01(ade_all), b01(se), sei.join(""), enc(&svx), enc(&svy)));
             // ---- oracle
             let cx = canon(&xot, x, false, &exact, true);
             let cy = canon(&xot, y, false, &exact, true);
@@ -219,6 +232,9 @@ fn main() {
                 _ => { let a = canon(&xot, x, false, &lower, true); let b = canon(&xot, y, false, &lower, true); shallow_canon_ci(&a, &xot, x) == shallow_canon_ci(&b, &xot, y) }
             };
             if dex_ci != want_dex_ci { out.fail(&case, "xpath-variant", &format!("pair {}: case-insensitive deep_equal_xpath = {} expected {}", pi, dex_ci, want_dex_ci)); }
+            // the supplied comparison applies to every piece of content: text, attribute values, comments, PI data
+            let want_all = canon(&xot, x, false, &lower, true) == canon(&xot, y, false, &lower, true);
+            if ade_all != want_all { out.fail(&case, "advanced-variant", &format!("pair {}: advanced_deep_equal with a keep-everything filter and a case-insensitive comparison = {} expected {}", pi, ade_all, want_all)); }
             // children only
             let kx: Vec<Option<Canon>> = xot.children(x).map(|c| canon(&xot, c, false, &exact, true)).collect();
             let ky: Vec<Option<Canon>> = xot.children(y).map(|c| canon(&xot, c, false, &exact, true)).collect();
@@ -270,8 +286,7 @@ fn shallow_canon(c: &Option<Canon>) -> Option<Canon> {
 }
 /// comments are compared exactly even under a text comparison
 fn shallow_canon_ci(c: &Option<Canon>, xot: &Xot, n: Node) -> Option<Canon> {
-    match xot.value(n) {
-        Value::Comment(cm) => Some(Canon::Comment(cm.get().to_string())),
-        _ => shallow_canon(c),
-    }
+    // (comments are compared with the supplied comparison like every other content)
+    let _ = (xot, n);
+    shallow_canon(c)
 }
